@@ -66,6 +66,10 @@ type FloodConfig struct {
 	// MaxSeenCacheSize limits the seen cache size
 	MaxSeenCacheSize int
 
+	// MaxHops is the maximum number of hops a route advertisement may travel
+	// from its origin (routing.max_hops). Zero means unlimited.
+	MaxHops int
+
 	// LocalDisplayName is the display name to include in route advertisements
 	LocalDisplayName string
 
@@ -258,6 +262,16 @@ func (f *Flooder) HandleRouteAdvertise(
 			// Plaintext - decode directly (normal case)
 			path, _ = protocol.DecodePath(encPath.Data)
 		}
+	}
+
+	// Enforce the hop limit: the path lists every agent between us and the origin
+	// (sender first, origin last), so its length is our distance from the origin.
+	if f.cfg.MaxHops > 0 && len(path) > f.cfg.MaxHops {
+		f.logger.Debug("route advertisement beyond hop limit dropped",
+			"origin", originAgent.ShortString(),
+			"hops", len(path),
+			"max_hops", f.cfg.MaxHops)
+		return false
 	}
 
 	// Convert protocol routes to routing entries (CIDR, domain, forward, and agent)
